@@ -592,6 +592,9 @@ func c04Exec(j c04Job) c04Res {
 	out := c04Res{}
 	if j.Path == "check" || j.Path == "check-warm" {
 		_, chk, dead, err := run(nil, wire)
+		if err != nil && strings.HasPrefix(err.Error(), "warm: ") {
+			return c04Res{Skip: "the mempool check does not admit the original in this state (it runs against the previous header): no node can have seen it first"}
+		}
 		if err != nil {
 			return c04Res{Err: err.Error()}
 		}
@@ -603,6 +606,9 @@ func c04Exec(j c04Job) c04Res {
 		return out
 	}
 	twin, _, _, err := run(nil, nil)
+	if err != nil && strings.HasPrefix(err.Error(), "warm: ") {
+		return c04Res{Skip: "the mempool check does not admit the original in this state (it runs against the previous header): no node can have seen it first"}
+	}
 	if err != nil {
 		return c04Res{Err: "twin: " + err.Error()}
 	}
